@@ -234,6 +234,19 @@ theorem lt_false_of_toNat_le (x y : Bits) (hx : x.toNat < 2 ^ 63) (hy : y.toNat 
   have : ¬ x < y := by rw [UInt64.lt_iff_toNat_lt]; omega
   simp [this]
 
+/-- on finite positive floats `F64.lt` / `F64.le` are the order of the patterns (bridge from the
+comparisons in `commonScale`'s cascade to the `toNat` hypotheses of the lifted C10 theorems) -/
+theorem lt_posFin (a b : Bits) (ha : PosFin a) (hb : PosFin b) : lt a b = true ↔ a.toNat < b.toNat := by
+  unfold lt
+  simp only [ha.isNaN, hb.isNaN, ha.isZero, hb.isZero, ha.signBit, hb.signBit, Bool.or_self,
+    Bool.and_self, Bool.false_eq_true, if_false, decide_eq_true_eq, UInt64.lt_iff_toNat_lt]
+
+theorem le_posFin (a b : Bits) (ha : PosFin a) (hb : PosFin b) : le a b = true ↔ a.toNat ≤ b.toNat := by
+  unfold le eq
+  simp only [Bool.or_eq_true, lt_posFin a b ha hb, ha.isNaN, hb.isNaN, ha.isZero, hb.isZero,
+    Bool.or_self, Bool.and_self, Bool.false_eq_true, if_false, beq_iff_eq, ← UInt64.toNat_inj]
+  omega
+
 /-- **div_mono** in the form of the task note: `(b/f) < (a/f)` is false for a ≤ b. -/
 theorem div_mono_lt (a b f : Bits) (ha : PosFin a) (hb : PosFin b) (hf : PosFin f)
     (h : vle a b) : lt (div b f) (div a f) = false :=
